@@ -2,7 +2,7 @@
 # try_seeded.sh <patch.diff> <ID> [<ID>...] : apply a seeded change to /repo, run the quick checks, undo the change.
 # Evidence and replays of these runs go to a scratch directory (never into /verif/evidence).
 set -u
-patch=$1; shift
+patch=$(realpath "$1"); shift
 if [ -n "$(git -C /repo status --porcelain --untracked-files=no)" ]; then echo "/repo has uncommitted changes"; exit 2; fi
 scratch=$(mktemp -d /tmp/vf-seeded-XXXXXX)
 git -C /repo apply "$patch" || { echo "patch does not apply"; exit 2; }
